@@ -11,7 +11,12 @@ class Base:
         self.args = args
 
 
-class S0(Base): pass
+from typing import Generic, TypeVar
+
+T = TypeVar('T')
+
+
+class S0(Base, Generic[T]): pass      # a generic class: the container takes S0[int] for S0 (subscripted aliases are normalised to their origin)
 class S1(Base): pass
 class S2(Base): pass
 class S3(Base): pass
@@ -20,6 +25,7 @@ class S5(Base): pass
 
 
 SYMS = [S0, S1, S2, S3, S4, S5]
+ALIAS = {0: S0[int]}      # how a symbol may also be written when it is handed to the container
 
 
 def F0() -> S0: return S0(0, ())
